@@ -41,6 +41,14 @@ func Creator(separator rune) func(ctx context.Context, name string, options map[
 			}
 			fieldNames = make([]string, len(row))
 			copy(fieldNames, row)
+			// Columns are addressed by name everywhere downstream: make duplicate header names unique.
+			seen := make(map[string]int, len(fieldNames))
+			for i, name := range fieldNames {
+				if count := seen[name]; count > 0 {
+					fieldNames[i] = fmt.Sprintf("%s_%d", name, count)
+				}
+				seen[name]++
+			}
 		}
 
 		fields := make([]octosql.Type, len(fieldNames))
